@@ -57,11 +57,16 @@ def KindsConsistent (e : Entry) : Prop := everyNode kindsConsistentHere e = true
 
 /-- A leaf-kind node whose source statement has a `type` substatement (the AST builder rejects a
 leaf or leaf-list without one: `yang:"type,required"`) has a resolved type.  This one is relative
-to the type resolver plugged into the entry layer: see `TypeRes.Total` in Props/C04. -/
+to the type resolver plugged into the entry layer: see `TypeResTotal` below. -/
 def typePresentHere (e : Entry) : Bool :=
   !(e.d.kind == .leaf && (e.d.node.one? "type").isSome) || e.d.type.isSome
 
 def TypesPresent (e : Entry) : Prop := everyNode typePresentHere e = true
+
+/-- The assumption under which `TypesPresent` can be proved of the entry layer: the plugged-in
+type resolver reports an error whenever it does not produce a type. -/
+def TypeResTotal (t : TypeRes) : Prop :=
+  ∀ reg root scope s, (t.resolve reg root scope s).2 = [] → (t.resolve reg root scope s).1.isSome = true
 
 /-! ### the proper-tree predicate -/
 
